@@ -342,6 +342,18 @@ def check(ctx: Ctx):
     io.check_dataset_pair(ctx, f"{EM}.Emulsion._write_hdf_dataset", f"{EM}.Emulsion._from_hdf_dataset", "Emulsion")
     io.check_timecourse_time(ctx)
     io.check_file_modes(ctx)
+    # droplets located without refinement carry an undetermined (NaN) width: the file the tracker writes must read back
+    io.check_nan_width(ctx)
+    # the offline analysis pairs frame i with storage.times[i]: with several processes the results must come back in frame order
+    from . import c15
+
+    sub = Ctx(ctx.model, ctx.prop, ctx.tier)
+    for fi_, ifn_ in c15.discover_splits(ctx.model):
+        if fi_.qualname == f"{EM}.EmulsionTimeCourse.from_storage":
+            c15.check_split(sub, fi_, ifn_)
+    ctx.findings.extend(f for f in sub.findings if f.rule == "PARMAP")
+    ctx.functions |= sub.functions
+    ctx.expect("PARMAP", 6)
     ctx.expect("FORWARD", 15)
     ctx.expect("PIPE", 7)
     ctx.expect("NONETEST", 1)
